@@ -351,7 +351,7 @@ def build_args(container, form, pts):
     return args
 
 
-def invoke(fn, uin, uout, args, n, tables=None, kw="given"):
+def invoke(fn, uin, uout, args, n, tables=None, kw="given", scribble=False):
     """one call of the real function -> ("ok", [float]*n) | ("err", class, message)"""
     import numpy as np
     import esutil.coords as co
@@ -391,7 +391,12 @@ def invoke(fn, uin, uout, args, n, tables=None, kw="given"):
             return ("err", "EOther", "shape %r for %d pair(s)" % (out.shape, n))
         if out.dtype != np.dtype("f8"):
             return ("err", "EOther", "result dtype %s" % out.dtype)
-        return ("ok", out.tolist())                # non-finite values are rejected inside Coq (Exec.qs)
+        if any(isinstance(a, np.ndarray) and a.size and np.shares_memory(out, a) for a in args):
+            return ("err", "EOther", "the result shares memory with an argument")
+        vals = out.tolist()                        # non-finite values are rejected inside Coq (Exec.qs)
+        if scribble and out.flags.writeable:       # the caller overwrites the array it was given back
+            out[...] = np.nan
+        return ("ok", vals)
     except Exception as e:  # noqa
         return ("err", core.errclass(e), "%s: %s" % (type(e).__name__, str(e)[:160]))
 
@@ -420,7 +425,7 @@ def long_indices(n, r):
 
 
 # ---- sequences: several calls in ONE process, arranged so that state carried across calls would show ----------
-STEP_KEYS = ("fn", "uin", "uout", "container", "form", "kw", "pts", "reuse")
+STEP_KEYS = ("fn", "uin", "uout", "container", "form", "kw", "pts", "reuse", "scribble")
 
 
 def step_of(c):
@@ -447,7 +452,7 @@ def run_steps(steps, tables=None):
         if all(isinstance(a, np.ndarray) and a.ndim == 1 for a in args):
             kept = args
         res.append(invoke(st["fn"], st["uin"], st["uout"], args, len(pts), tables if i == len(steps) - 1 else None,
-                          st.get("kw", "given")))
+                          st.get("kw", "given"), scribble=bool(st.get("scribble"))))
     return res, args
 
 
@@ -724,7 +729,7 @@ class Sep(Entry):
             r.shuffle(us)
             return us
 
-        def step(pts, cont, units, form="plain", kw="given", reuse=False):
+        def step(pts, cont, units, form="plain", kw="given", reuse=False, scribble=False):
             st = {"fn": fn, "uin": units[0], "uout": units[1], "container": cont, "pts": pts}
             if form != "plain":
                 st["form"] = form
@@ -732,6 +737,8 @@ class Sep(Entry):
                 st["kw"] = kw
             if reuse:
                 st["reuse"] = True
+            if scribble:
+                st["scribble"] = True
             return st
 
         def emit(kind, steps):
@@ -780,6 +787,18 @@ class Sep(Entry):
             if ctx.quick():
                 steps = steps[:4]
             emit("same-objects", steps)
+            # (a') ownership of results: the caller overwrites the RETURNED array and calls again (same objects, then
+            #      new objects with equal contents, then the points exchanged) -- a result that is an internal buffer
+            #      or a cached array shows up as a changed answer
+            n = r.choice([1, 3, 7])
+            p1 = both_units(n)
+            us = units_list()
+            steps = [step(p1, "array", us[0], scribble=True), step(p1, "array", us[0], reuse=True, scribble=True),
+                     step(p1, "array", us[0]), step([q[2:] + q[:2] for q in p1], "array", us[0], scribble=True),
+                     step(p1, "scalar" if n == 1 else "list", us[0])]
+            if ctx.quick():
+                steps = steps[:3]
+            emit("returned-array", steps)
             # (b'') inputs that agree in what a lazy key would use: length, first and last pair, sum (permutation)
             n = r.choice([4, 6])
             p1 = both_units(n)
@@ -824,7 +843,7 @@ class Sep(Entry):
             cs.append(self.mk(ctx, "mixed", "array", ctx.rng.choice([6, 12, 40])))
         cs.extend(self.form_cases(ctx, ctx.n(1, 4) * (1 if round == 0 else 2)))
         # long arrays: beyond numpy's internal buffer (8192 elements) and plausible block sizes, 2^k +- 1
-        sizes = ctx.n([511, 4097, 8193], [1023, 4095, 4097, 8191, 8193, 16385, 65537, 100000])
+        sizes = ctx.n([4097, 8193, 65537], [1023, 4095, 4097, 8191, 8193, 16385, 32769, 65537, 100000, 131073])
         for i, n in enumerate(sizes):
             cs.append(self.mk_long(ctx, n, form=["plain", "f4", "strided", "plain"][i % 4]))
         return cs
@@ -1085,7 +1104,8 @@ def run(ctx, replay=None):
     # 1b. the formulas: element-wise reading of the source text -> Src.v (SrcProofs.v proves it is the model)
     try:
         changed = c08_translate.regenerate_source(ctx.impl, core.COQDIR)
-        ctx.obligation("Src.v regenerated from esutil/coords.py (_thetaphi2xyz, eq2xyz, sphdist, gcirc)%s" % (
+        ctx.obligation("Src.v, SrcF.v, GenMeta.v regenerated from esutil/coords.py (_thetaphi2xyz, eq2xyz, sphdist, gcirc: "
+                       "formulas, statement sequence, keyword defaults)%s" % (
             " [changed]" if changed else ""), True)
     except c08_translate.TranslateError as e:
         gen_ok = False
@@ -1097,6 +1117,12 @@ def run(ctx, replay=None):
                        "no_longer_checks": "tie of C08/Src.v (thetaphi2xyz_src, eq2xyz_src, sphdist_src, gcirc_src) to "
                                            "esutil/coords.py; theorems C08_source_is_model, C08_source_exact"},
                       found_input=False)
+    # 1c. the numpy constants of the binary64 reading, from the numpy that runs this check (tie lemma in TieProofs.v)
+    try:
+        ch = c08_translate.regenerate_numpy_constants(core.COQDIR)
+        ctx.obligation("GenNp.v regenerated from the running numpy (deg2rad(1), rad2deg(1), pi)%s" % (" [changed]" if ch else ""), True)
+    except Exception as e:  # noqa
+        ctx.obligation("GenNp.v regenerated from the running numpy", False, str(e))
     # 2. theorems
     proofs_ok = retry_if_killed(ctx, lambda: core.proof_step(ctx, "C08", core.ALLOW_INTERVAL,
                                                              extra_targets=["theories/C08/ExecF.vo"]), "proof-step")
